@@ -234,3 +234,123 @@ Definition show_outcome (o : @outcome Z Z) : Z * Z * list (list Z) * list Z :=
 Definition run_set_meta (dt : dec_tab) (et : enc_tab) (sm : option bool) (t : zmtable)
     (mean : list float) (var : option (list float)) (default : Z) :=
   show_outcome (set_time_metadata float Z Z Z (tab_decode dt) (tab_encode et) sm t mean var default).
+
+(* ------------------------------------------------------------------------- *)
+(** ** Provenance   (provenance.py:69-92, core.py:115-137, 250-254, the [run] methods'
+       [provenance_params.update(locals())], util.py:125-126, 180-217, 550-551, 595-597) *)
+
+Section Prov.
+  (** a parameter value as handed in by the caller *)
+  Variable pv : Type.
+  Variable pv_string : string -> pv.       (* the command name, a str *)
+  (** one row of the provenance table *)
+  Variable record : Type.
+  (** [json.dumps(get_provenance_dict(...))] of the final parameter dict (which includes
+      "command"); [None] = TypeError, some value is not JSON serialisable *)
+  Variable dump : list (string * pv) -> option record.
+
+  Definition pdict := list (string * pv).
+
+  Fixpoint pset (k : string) (v : pv) (d : pdict) : pdict :=
+    match d with
+    | [] => [(k, v)]
+    | (k', v') :: d' => if String.eqb k' k then (k, v) :: d' else (k', v') :: pset k v d'
+    end.
+  Fixpoint pget (k : string) (d : pdict) : option pv :=
+    match d with
+    | [] => None
+    | (k', v') :: d' => if String.eqb k' k then Some v' else pget k d'
+    end.
+  (** [d.update(u)] *)
+  Definition pupdate (d u : pdict) : pdict := fold_left (fun d kv => pset (fst kv) (snd kv) d) u d.
+
+  (** [provenance.record_provenance(tables, command, start_time, **kwargs)]:
+      [parameters = dict(kwargs); parameters["command"] = command]; one row appended *)
+  Definition record_provenance (prov : list record) (command : string) (kwargs : pdict)
+    : option (list record) :=
+    match dump (pset "command" (pv_string command) kwargs) with
+    | Some r => Some (prov ++ [r])%list
+    | None => None
+    end.
+
+  Definition recording (rp : option bool) : bool := match rp with None => true | Some b => b end.
+
+  Inductive method := VariationalGamma | InsideOutside | Maximization.
+  Definition method_name (m : method) : string :=
+    match m with
+    | VariationalGamma => "variational_gamma"
+    | InsideOutside => "inside_outside"
+    | Maximization => "maximization"
+    end.
+
+  (** the generic parameters stored by [EstimationMethod.__init__] (core.py:130-137);
+      [population_size] is the value after [PopulationSizeHistory.as_dict()] *)
+  Record generic := mkGeneric {
+    g_mutation_rate : pv; g_recombination_rate : pv; g_time_units : pv; g_progress : pv;
+    g_population_size : pv }.
+  Definition init_params (g : generic) : pdict :=
+    [("mutation_rate", g_mutation_rate g); ("recombination_rate", g_recombination_rate g);
+     ("time_units", g_time_units g); ("progress", g_progress g);
+     ("population_size", g_population_size g)].
+
+  (** the keyword arguments of [run()], in signature order: what [locals()] holds when
+      [provenance_params.update(...)] runs *)
+  Definition run_keys (m : method) : list string :=
+    match m with
+    | VariationalGamma => ["max_iterations"; "max_shape"; "rescaling_intervals"; "rescaling_iterations";
+                           "match_segregating_sites"; "regularise_roots"; "singletons_phased"]
+    | InsideOutside => ["eps"; "outside_standardize"; "ignore_oldest_root"; "probability_space";
+                        "num_threads"; "cache_inside"]
+    | Maximization => ["eps"; "probability_space"; "num_threads"; "cache_inside"]
+    end.
+
+  (** provenance side of one dating call ([date()] and the named functions behave the
+      same: [date] only forwards).  [args] are the values of [run]'s arguments in
+      signature order.  [None]: the call raises. *)
+  Definition date_provenance (rp : option bool) (m : method) (g : generic) (args : list pv)
+      (prov : list record) : option (list record) :=
+    if recording rp then
+      record_provenance prov (method_name m) (pupdate (init_params g) (combine (run_keys m) args))
+    else Some prov.
+
+  (** [preprocess_ts]: the inner tskit / tsdate calls all get [record_provenance=False]
+      (util.py:180, 185, 194, 199); one record at the end (util.py:205-216) *)
+  Record prep := mkPrep {
+    p_minimum_gap : pv; p_erase_flanks : pv; p_split_disjoint : pv; p_filter_populations : pv;
+    p_filter_individuals : pv; p_filter_sites : pv; p_delete_intervals : pv }.
+  Definition prep_params (p : prep) : pdict :=
+    [("minimum_gap", p_minimum_gap p); ("erase_flanks", p_erase_flanks p);
+     ("split_disjoint", p_split_disjoint p); ("filter_populations", p_filter_populations p);
+     ("filter_individuals", p_filter_individuals p); ("filter_sites", p_filter_sites p);
+     ("delete_intervals", p_delete_intervals p)].
+  (** [inner] = what delete_intervals / simplify / split_disjoint_nodes do to the
+      provenance table when told not to record: nothing *)
+  Definition preprocess_provenance (rp : option bool) (p : prep) (prov : list record)
+    : option (list record) :=
+    if recording rp then record_provenance prov "preprocess_ts" (prep_params p) else Some prov.
+
+  (** [split_disjoint_nodes(ts, record_provenance=...)] *)
+  Definition split_provenance (rp : option bool) (prov : list record) : option (list record) :=
+    if recording rp then record_provenance prov "split_disjoint_nodes" [] else Some prov.
+End Prov.
+
+Arguments mkGeneric {pv}.
+Arguments mkPrep {pv}.
+
+(** harness instance: values are interned JSON texts (0 = not JSON serialisable), a record is
+    its parameter dict *)
+Definition zdump (d : list (string * Z)) : option (list (string * Z)) :=
+  if existsb (fun kv => Z.eqb (snd kv) 0) d then None else Some d.
+Definition zstr (s : string) : Z :=
+  if String.eqb s "variational_gamma" then (-1)%Z else if String.eqb s "inside_outside" then (-2)%Z
+  else if String.eqb s "maximization" then (-3)%Z else if String.eqb s "preprocess_ts" then (-4)%Z
+  else if String.eqb s "split_disjoint_nodes" then (-5)%Z else (-9)%Z.
+Definition zmethod (z : Z) : method :=
+  if Z.eqb z 0 then VariationalGamma else if Z.eqb z 1 then InsideOutside else Maximization.
+Definition run_date_prov (rp : option bool) (m : Z) (g : @generic Z) (args : list Z)
+    (prov : list (list (string * Z))) :=
+  date_provenance Z zstr (list (string * Z)) zdump rp (zmethod m) g args prov.
+Definition run_prep_prov (rp : option bool) (p : @prep Z) (prov : list (list (string * Z))) :=
+  preprocess_provenance Z zstr (list (string * Z)) zdump rp p prov.
+Definition run_split_prov (rp : option bool) (prov : list (list (string * Z))) :=
+  split_provenance Z zstr (list (string * Z)) zdump rp prov.
